@@ -1119,17 +1119,16 @@ fn adjust_child_validity(
         }
     };
 
-    // Create new array with adjusted validity
+    // Create new array with adjusted validity.  Go through the builder so that the
+    // (already sliced) NullBuffer is installed as-is; rebuilding from the raw bitmap
+    // loses the bit offset of sliced inputs.
     arrow_array::make_array(
-        arrow_data::ArrayData::try_new(
-            child.data_type().clone(),
-            child.len(),
-            Some(new_validity.into_inner().into_inner()),
-            child.offset(),
-            child.to_data().buffers().to_vec(),
-            child.to_data().child_data().to_vec(),
-        )
-        .unwrap(),
+        child
+            .to_data()
+            .into_builder()
+            .nulls(Some(new_validity))
+            .build()
+            .unwrap(),
     )
 }
 
